@@ -374,6 +374,17 @@ class C04(PipelineCheck):
                              'V': 'tvar'}.get(new_s[0], new_s[0]), prim),
                             '%s overwritten: %s replaced by %s, which is related to it (%s)' % (
                                 kind, tstr(old_obj), tstr(new_s), rel))
+            # ---- injections that certainly cannot produce a type error --------------------------
+            try:
+                why = self._without_effect(res['program'], kind, node, parent, target_path,
+                                           groups, targs)
+            except Exception:   # noqa
+                why = None
+            obl['effect-possible'] = obl.get('effect-possible', 0) + 1
+            if why:
+                add('injection-without-effect', '%s|%s' % (kind, why),
+                    'an injection is reported (%s) but nothing in the program constrains the '
+                    'overwritten %s: %s' % ((res['error_injected'] or '')[:120], kind, why))
             # ---- visible in the text ---------------------------------------------------------
             obl['visible-in-text'] += 1
             same_text = [l for l in LANGS4 if res['texts_after'][l] == obs.texts_before[l]]
@@ -426,6 +437,65 @@ class C04(PipelineCheck):
         return {'injected': 1,
                 'sample': {'config': c, 'kind': kind, 'error_injected': res['error_injected'],
                            'diff_paths': [p[-90:] for p, _, _ in diff[:4]]}}
+
+    @staticmethod
+    def _without_effect(program, kind, node, parent, target_path, groups, targs):
+        """shapes in which the overwritten annotation is certainly unconstrained"""
+        from src.ir import ast, types as tp
+        from sim import walk
+        from checks.c03 import mentions
+
+        def untyped_bottom(e):
+            return isinstance(e, ast.BottomConstant) and e.t is None
+        if kind == 'variable':
+            if not untyped_bottom(node.expr):
+                return None
+            for n_, path, parents in walk.iter_nodes(program):
+                if isinstance(n_, (ast.Variable, ast.Assignment)) and \
+                        getattr(n_, 'name', None) == node.name:
+                    return None
+                if isinstance(n_, ast.FunctionCall) and n_.func == node.name:
+                    return None
+            return 'initialiser-is-an-untyped-null-and-the-variable-is-never-used'
+        if kind != 'type-argument' or type(node).__name__ != 'ParameterizedType':
+            return None
+        new = parent
+        if not isinstance(new, ast.New):
+            return None
+        sub = groups[targs[0]][0][0]
+        mi = re.search(r'\[(\d+)\]', sub)
+        i = int(mi.group(1)) if mi else 0
+        decls = {d.name: d for d in program.context._context.get(('global',), {}).get(
+            'decls', {}).values() if isinstance(d, ast.ClassDeclaration)}
+        d = decls.get(node.name)
+        if d is None or i >= len(d.type_parameters) or len(d.fields) != len(new.args):
+            return None
+        pname = d.type_parameters[i].name
+        if d.type_parameters[i].bound is not None:
+            return None           # the replacement may violate the parameter's own bound
+        for f, a in zip(d.fields, new.args):
+            if mentions(f.field_type, pname) and not untyped_bottom(a):
+                return None
+        for q in d.type_parameters:
+            if q.name != pname and q.bound is not None and mentions(q.bound, pname):
+                return None
+        # no constructor argument constrains the parameter: is there an expected type?
+        for n_, path, parents in walk.iter_nodes(program):
+            if isinstance(n_, ast.FunctionCall) and n_.receiver is new:
+                fm = None
+                for fn in d.functions:
+                    if fn.name == n_.func:
+                        fm = fn
+                if fm is not None and not mentions(fm.get_type(), pname) and not any(
+                        mentions(p_.param_type, pname) for p_ in fm.params):
+                    return 'receiver-of-a-call-that-does-not-mention-the-parameter'
+                return None
+            if isinstance(n_, ast.FieldAccess) and n_.expr is new:
+                f = d.get_field(n_.field)
+                if f is not None and not mentions(f.field_type, pname):
+                    return 'receiver-of-a-field-access-that-does-not-mention-the-parameter'
+                return None
+        return None
 
     @staticmethod
     def _old_type(obs, diff, kind):
